@@ -225,6 +225,23 @@ def exportStringSpec (v : BMNumber) : Option (List Nat) :=
   | .signed => if v.bytes.length = 8 then some ([48, 115] ++ signedDec (valOf v.bytes)) else none
   | _ => exportString v
 
+/-! ### the other import entry points and `ExportUint64` -/
+
+/-- `ImportUint(input, optionalBits)`: `w` ∈ {8,16,32,64} is the Go width of `input`; the value is
+    laid out little endian in `w/8` bytes; a positive `optionalBits` overrides the width field only -/
+def importUint (w v optBits : Nat) : BMNumber :=
+  ⟨toBytesLE (w / 8) v, if 0 < optBits then optBits else w, .unsigned⟩
+
+/-- `ImportBytes(input, bits)`: `input` is big endian; the result is unsigned -/
+def importBytes (be : List Nat) (bits : Nat) : BMNumber := ⟨be.reverse, bits, .unsigned⟩
+
+/-- `CastType` to one of the size-free types (unsigned, signed, hex, bin) -/
+def castType (v : BMNumber) (t : NType) : BMNumber := { v with ty := t }
+
+/-- `ExportUint64`: `none` = more than 8 bytes -/
+def exportUint64 (v : BMNumber) : Option Nat :=
+  if 8 < v.bytes.length then none else some (valOf v.bytes)
+
 /-! ### well-formed values -/
 
 def bytesOK (bs : List Nat) : Prop := ∀ b ∈ bs, b < 256
